@@ -82,14 +82,18 @@ def r_exc_breadth(e, R):
         for c in calls_in(n):
             for q in e.callees_of(c):
                 hf = e.prog.funcs[q]
-                if any(isinstance(x, ast.Call) and isinstance(x.func, ast.Attribute) and x.func.attr == "put" and
-                       isinstance(x.func.value, ast.Name) and x.func.value.id in hf.params for x in func_nodes(hf)):
+                if any(isinstance(x, ast.Attribute) and x.attr == "put" and isinstance(x.value, ast.Name) and x.value.id in hf.params for x in func_nodes(hf)):
                     helpers.add(hf)
     R.check(bool(helpers), "R-EXC-BREADTH", "worker: results are sent through the safe-send helper", f.short, "_sendback_result",
             "results are no longer sent through a helper guarding against unpicklable results", e.loc(f, f.node))
     for hf in helpers:
         hg = e.cfg(hf)
-        puts = [n for n in hg.nodes for c in calls_in(n) if isinstance(c.func, ast.Attribute) and c.func.attr == "put"]
+        def is_put(c, hf=hf):
+            fn_ = c.func
+            if isinstance(fn_, ast.Name) and len(e.local_defs(hf, fn_.id)) == 1:
+                fn_ = e.local_defs(hf, fn_.id)[0]            # `put = result_queue.put` bound once to a local
+            return isinstance(fn_, ast.Attribute) and fn_.attr == "put"
+        puts = [n for n in hg.nodes for c in calls_in(n) if is_put(c)]
         first = [n for n in puts if _handlers_of(hg, n)]
         R.check(bool(first) and all(any(_catch_all(h) for h in _handlers_of(hg, n)) for n in first), "R-EXC-BREADTH",
                 f"{hf.short}: the result put is enclosed by a BaseException handler", hf.short, "try: result_queue.put(...) except BaseException",
